@@ -237,9 +237,6 @@ func (g *docGen) field(parent *graphql.Object, name string, depth int) string {
 	}
 	switch t := unwrapType(fd.Type).(type) {
 	case *graphql.Object:
-		// (the validator rejects an inline fragment without type condition
-		// directly under a field of a wrapped type, "Deep can never be of type
-		// Deep!": such documents are not generated)
 		return head + dir + " { " + g.selection(t, depth+1, fd.Type == graphql.Type(t)) + " }"
 	case *graphql.Interface:
 		return head + dir + " { " + g.abstractSelection(t.Name(), t, depth+1) + " }"
@@ -329,11 +326,8 @@ func (g *docGen) selection(o *graphql.Object, depth int, bareOK bool) string {
 		cut := 1 + g.r.Intn(len(items)-1)
 		inner := strings.Join(items[cut:], " ")
 		items = items[:cut]
-		kind := g.r.Intn(4)
-		if !bareOK && (kind == 0 || kind == 2) {
-			kind = 1
-		}
-		switch kind {
+		_ = bareOK // (bare inline fragments under wrapped types were rejected by the validator until F-C02-1 was repaired)
+		switch g.r.Intn(4) {
 		case 0:
 			items = append(items, "... { "+inner+" }")
 		case 1:
